@@ -149,7 +149,8 @@ Proof.
   - destruct d as [s x|od dp dm|od dm df]; destruct v as [s1 x1|ov vp vm|ov vm vf]; try discriminate.
     + intro H. now inv H.
     + destruct s1; discriminate.
-    + destruct (m_lock dm); [discriminate|]. intro H. now inv H.
+    + destruct (match ov, od with New, _ => true | Old b, Old a => Z.eqb a b | _, _ => false end); [intro H; now inv H|].
+      destruct (m_lock dm); [discriminate|]. intro H. now inv H.
     + destruct od; [|discriminate]. destruct ov; [|discriminate]. destruct (Z.eqb z z0); [|discriminate]. intro H. now inv H.
   - destruct (m_lock (r_meta A r)); [discriminate|]. intro H. now inv H.
 Qed.
@@ -162,13 +163,6 @@ Proof.
   intro Hl. unfold set_item_mt. destruct (o_checked o) eqn:Ec; [|reflexivity].
   destruct (o_inplace o) eqn:Ei; [reflexivity|]. cbn [andb negb].
   unfold set_item. rewrite Ec, Ei. cbn [bind]. now rewrite (Hl Ei Ec).
-Qed.
-
-Lemma others_node_nodflt cm cf cm' cf' others k :
-  others_node A false cm cf others k = others_node A false cm' cf' others k.
-Proof.
-  induction others as [|ot r IH]; cbn [others_node]; [reflexivity|].
-  destruct (oget A ot k) as [[t|]| |]; cbn [bind]; try reflexivity. now rewrite IH.
 Qed.
 
 Lemma level_finish_unopt sm sf names res any :
@@ -194,7 +188,7 @@ Qed.
 
 Definition fusion_at (items : forest) : Prop :=
   forall con prefix sm sf others out names base acc any,
-    (o_inplace o = true -> o_default o = false /\ nont_free items = true /\ acc <> None) ->
+    (o_inplace o = true -> nont_free items = true /\ acc <> None) ->
     (out <> None -> nont_free items = true /\ acc <> None) ->
     lock_inv (unopt sm names acc) ->
     match flat_items A o (o_default o) con prefix sm sf others items base with
@@ -222,7 +216,7 @@ Definition mt_step log out sf k rest lr sm names acc any (t : option tree) : mre
 
 Lemma step_fusion con prefix sm sf others out names k rest acc any base' t :
   fusion_at rest ->
-  (o_inplace o = true -> o_default o = false /\ nont_free rest = true /\ acc <> None) ->
+  (o_inplace o = true -> nont_free rest = true /\ acc <> None) ->
   (out <> None -> nont_free rest = true /\ acc <> None) ->
   lock_inv (unopt sm names acc) ->
   match flat_items A o (o_default o) con prefix sm sf others rest base' with
@@ -238,8 +232,8 @@ Proof.
   - destruct (set_item A o (unopt sm names acc) k v) as [acc'| |] eqn:Eset; cbn [bind].
     + assert (Hl' : lock_inv (unopt sm names (Some acc'))).
       { intros Hi Hc. cbn [unopt]. rewrite (set_item_meta _ _ _ _ Hc Eset). now apply Hl. }
-      assert (Hip2 : o_inplace o = true -> o_default o = false /\ nont_free rest = true /\ Some acc' <> None).
-      { intro Hi. destruct (Hip Hi) as (D & N & _). repeat split; [exact D|exact N|discriminate]. }
+      assert (Hip2 : o_inplace o = true -> nont_free rest = true /\ Some acc' <> None).
+      { intro Hi. destruct (Hip Hi) as (N & _). split; [exact N|discriminate]. }
       assert (Hop2 : out <> None -> nont_free rest = true /\ Some acc' <> None).
       { intro Ho. split; [apply (Hop Ho)|discriminate]. }
       specialize (IHr con prefix sm sf others out names base' (Some acc') true Hip2 Hop2 Hl').
@@ -272,8 +266,8 @@ Proof.
   - intros con prefix sm sf others out names base acc any _ _ Hl. cbn [flat_items]. intros log _. cbn [apply_items same_outcome rebuild_items].
     split; [reflexivity|]. intros r a H. inv H. split; [exact Hl|auto].
   - intros k item IHt rest IHr con prefix sm sf others out names base acc any Hip Hop Hl.
-    assert (Hip' : o_inplace o = true -> o_default o = false /\ nont_free rest = true /\ acc <> None).
-    { intro Hi. destruct (Hip Hi) as (D & Hnf & Ha). cbn [nont_free] in Hnf. apply andb_true_iff in Hnf. tauto. }
+    assert (Hip' : o_inplace o = true -> nont_free rest = true /\ acc <> None).
+    { intro Hi. destruct (Hip Hi) as (Hnf & Ha). cbn [nont_free] in Hnf. apply andb_true_iff in Hnf. tauto. }
     assert (Hop' : out <> None -> nont_free rest = true /\ acc <> None).
     { intro Ho. destruct (Hop Ho) as (Hnf & Ha). cbn [nont_free] in Hnf. apply andb_true_iff in Hnf. tauto. }
     cbn [flat_items apply_items].
@@ -285,14 +279,7 @@ Proof.
               end) with (st_step con prefix sm sf others out names k rest acc any).
     destruct (negb con && negb (o_is_leaf o (kind_of A item))) eqn:Edisp.
     + (* nested dispatch: the operands of the nested level are the same in both forms *)
-      assert (Eon : others_node A (o_default o)
-                      (r_meta A match acc with Some a => if o_inplace o then a else mkAcc A New sm sf | None => mkAcc A New sm sf end)
-                      (r_f A match acc with Some a => if o_inplace o then a else mkAcc A New sm sf | None => mkAcc A New sm sf end) others k
-                    = others_node A (o_default o) sm sf others k).
-      { destruct acc as [a|]; [|reflexivity]. destruct (o_inplace o) eqn:Ei; [|reflexivity].
-        destruct (Hip eq_refl) as (D & _). rewrite D. apply others_node_nodflt. }
-      rewrite Eon. clear Eon.
-      destruct (others_node A (o_default o) sm sf others k) as [others'| |]; cbn [bind]; try (intros x; discriminate).
+      destruct (others_node A (o_default o) (stand_in A item) others k) as [others'| |]; cbn [bind]; try (intros x; discriminate).
       (* out[key]: read from the object being written, in both forms *)
       assert (Eout : match out, acc with Some _, Some a => if o_inplace o then out else Some (acc_tree A a) | _, _ => out end
                      = match out with Some _ => if o_inplace o then out else Some (acc_tree A (unopt sm names acc)) | None => None end).
@@ -302,7 +289,7 @@ Proof.
       * (* a non-tensor entry: no task; neither in place nor with out= here *)
         cbn [bind fst snd List.length app]. rewrite Nat.add_0_r.
         assert (Hi : o_inplace o = false).
-        { destruct (o_inplace o) eqn:Ei; [|reflexivity]. destruct (Hip eq_refl) as (_ & Hnf & _). cbn [nont_free] in Hnf. discriminate. }
+        { destruct (o_inplace o) eqn:Ei; [|reflexivity]. destruct (Hip eq_refl) as (Hnf & _). cbn [nont_free] in Hnf. discriminate. }
         assert (Ho : out = None).
         { destruct out; [|reflexivity]. destruct (Hop ltac:(discriminate)) as (Hnf & _). cbn [nont_free] in Hnf. discriminate. }
         subst out. cbn [out_child bind].
@@ -324,8 +311,8 @@ Proof.
         2:{ dflat. dflat. intros log _. split; [|discriminate]. cbn [rebuild_items same_outcome]. fold out_now. rewrite Eok. cbn [of_res mbind].
             unfold rebuild_init. rewrite Einit. reflexivity. }
         destruct (level_init_props io im g out_k init Einit) as (P1 & P2 & P3).
-        assert (Hipg : o_inplace o = true -> o_default o = false /\ nont_free g = true /\ init <> None).
-        { intro Hi. destruct (Hip Hi) as (D & Hnf & _). cbn [nont_free] in Hnf. apply andb_true_iff in Hnf. repeat split; [exact D|tauto|now apply P2]. }
+        assert (Hipg : o_inplace o = true -> nont_free g = true /\ init <> None).
+        { intro Hi. destruct (Hip Hi) as (Hnf & _). cbn [nont_free] in Hnf. apply andb_true_iff in Hnf. split; [tauto|now apply P2]. }
         assert (Hopg : out_k <> None -> nont_free g = true /\ init <> None).
         { intro Hk. destruct (Hop (Hokn Hk)) as (Hnf & _). cbn [nont_free] in Hnf. apply andb_true_iff in Hnf. split; [tauto|now apply P1]. }
         specialize (IHt false (prefix ++ [k])%list im g others' out_k None base init false Hipg Hopg (P3 None)).
@@ -371,7 +358,7 @@ Qed.
    single-threaded form returns (result or exception class) whenever all operand lookups succeed; when a lookup fails
    neither form returns. *)
 Theorem mt_equals_st : forall con propagate so sm sf others out names pi,
-  (o_inplace o = true -> o_default o = false /\ nont_free sf = true) ->
+  (o_inplace o = true -> nont_free sf = true) ->
   (out <> None -> nont_free sf = true) ->
   (forall tasks lfs, flat_items A o (o_default o) con [] sm sf others sf 0 = Ok (tasks, lfs) ->
                      forall id, id < List.length tasks -> In id pi) ->
@@ -386,8 +373,8 @@ Proof.
   unfold mt_front, st_front, front, apply_nest.
   destruct (level_init A o so sm sf out) as [init| |] eqn:Einit.
   - destruct (level_init_props so sm sf out init Einit) as (P1 & P2 & P3).
-    assert (Hip : o_inplace o = true -> o_default o = false /\ nont_free sf = true /\ init <> None).
-    { intro Hi. destruct (Hnf Hi). repeat split; try assumption. now apply P2. }
+    assert (Hip : o_inplace o = true -> nont_free sf = true /\ init <> None).
+    { intro Hi. split; [now apply Hnf|now apply P2]. }
     assert (Hop : out <> None -> nont_free sf = true /\ init <> None).
     { intro Ho. split; [now apply Hout|now apply P1]. }
     pose proof (fusion sf con [] sm sf others out names 0 init false Hip Hop (P3 names)) as F.
